@@ -11,17 +11,25 @@ from sa.report import load_known    # noqa: E402
 
 def main():
     sub = sys.argv[1]
-    props = sys.argv[2:]
+    props = [x for x in sys.argv[2:] if x != "-v"]
     jobs = []
     for v in corpus.VARIANTS:
         if sub in v["name"]:
-            for p in (props or sorted(v["props"])):
+            for p in ([x for x in props if x in v["props"]] if props else sorted(v["props"])):
                 known = sorted({(k["rule"], k["construct"]) for k in load_known() if k.get("property") == p and k.get("status") == "known"})
                 jobs.append((p, v, known))
     with ProcessPoolExecutor(max_workers=16) as ex:
         for (p, v, _), (name, status, new) in zip(jobs, ex.map(selftest._run_one, jobs)):
-            if new or status != "ran":
-                print(p, v["kind"], name[:60], status, [("%s %s" % x)[:200] for x in new][:4])
+            exp = v["expect"].get(p)
+            fired = {r for r, _ in new}
+            if status == "skipped":
+                verdict = "skipped"
+            elif v["kind"] == "N":
+                verdict = "ok" if not new else "FALSE ALARM"
+            else:
+                verdict = "ok" if new and (exp is None or fired & set(exp) or (status == "analysis-error" and "ANALYSIS-ERROR" in exp)) else "MISSED"
+            if verdict != "ok" or "-v" in sys.argv:
+                print(verdict, p, v["kind"], name[:70], status, [("%s %s" % x)[:160] for x in new][:3])
     print("ran", len(jobs))
 
 
